@@ -1347,7 +1347,7 @@ def c15(ctx: Ctx) -> None:
     ctx.trusted += ['functools.partial', 'WeakKeyDictionary']
     ctx.rule('C15-R1', 'the partial returned for `func is None` re-binds exactly the keyword-only options, each to the same-named parameter', 3)
     ctx.rule('C15-R2', 'every option reaches its point of use in the direct form (def-use chains)', 6)
-    ctx.rule('C15-R3', 'per-loop registry: keyed by get_running_loop() of the same activation, WeakKeyDictionary, built with all options and stored before use, no suspension between miss and store, no other registry mutation', 4)
+    ctx.rule('C15-R3', 'per-loop registry: keyed by get_running_loop() of the same activation, WeakKeyDictionary, built with all options and stored before use, no suspension between miss and store, no other registry mutation', 1)
     ctx.rule('C15-R4', 'the option decorators share one idiom', 1)
     decos = option_decorators(p)
     names = sorted(d.name for d in decos)
@@ -1490,7 +1490,16 @@ def _registry(ctx: Ctx, p) -> None:
     abb = p.func(FILE, 'async_background_batcher')
     wrapper = next((c for c in abb.children if c.kind == 'function' and c.is_async), None)
     if wrapper is None:
-        ctx.undecided('C15-R3', 'decorated wrapper', f'{FILE}:{abb.lineno}', 'no nested coroutine')
+        sync_w = [c for c in abb.children if c.kind == 'function' and not c.is_async and any(
+            isinstance(x, ast.Call) and Resolver(c).path(x.func) == 'asyncio.get_running_loop' for x in ast.walk(c.node))]
+        if sync_w:
+            ctx.violation('C15-R3', f'{sync_w[0].qualname} is a plain function', f'{FILE}:{sync_w[0].lineno}',
+                          'the per-loop batcher is chosen when the decorated function is *called*, not when its result is awaited: a coroutine '
+                          'created outside the loop that runs it (asyncio.run(f(x)), run_coroutine_threadsafe(f(x), other_loop)) is batched in the '
+                          'wrong loop or fails with "no running event loop"',
+                          construct=construct_key(abb.qualname, 'wrapper is not a coroutine function'))
+        else:
+            ctx.undecided('C15-R3', 'decorated wrapper', f'{FILE}:{abb.lineno}', 'no nested coroutine')
         return
     g = build(wrapper, p)
     ares = Resolver(abb)
